@@ -520,7 +520,8 @@ def run(ctx, col: Collector):
         else:
             col.bad('C12-typeerror', '__new__:has-fallthrough', 'no path of __new__ rejects unsupported source types', node=new.node, file=new.file)
         for t in ('str', 'Path', 'TextIOWrapper'):
-            okt = any(t == a or t in a.replace('(', ' ').replace(')', ' ').replace(',', ' ').split() for a in accepted)
+            import re as _re
+            okt = any(t == a_ or t in a_.replace('(', ' ').replace(')', ' ').replace(',', ' ').split() for a in accepted for a_ in [_re.sub(r'_m\d+_', '', str(a))])
             if okt:
                 col.ok('C12-types', f'__new__:accepts:{t}', f'{t} sources are dispatched', node=new.node, file=new.file)
             elif undecidable:
